@@ -471,6 +471,9 @@ def _inside_fillvalue(call):
 
 
 COLORS_BAD = ['', '#', '#1', '#12', '#12345', '#1234567', '#123456789', 'nocolor', '#ggg', 'ggg', '12', '#gggggg', ' red', 'red ', '##123',
+              # what int(x, 16) accepts beyond hexadecimal digits: signs, white space, underscores, the 0x prefix, non-ASCII digits
+              '#-1-2-3', '#+1+2+3', '# 1 2 3', '+1+2+3', '-1-2-3', '#\t1\t2\t3', '#1_23_4', '#0x1234', '0x12ab', '#0X1234', '#12_456', '#ab_cd_ef',
+              '#0x123456', '#+f+f+f+f', '#\u0661\u0662\u0663', '\u0661\u0662\u0663\u0664\u0665\u0666', '#12 ', '#-12', '#1-2', '#1+2',
               (1, 2), (1,), (), (1, 2, 3, 4, 5), (256, 0, 0), (-1, 0, 0), (0, 0, 300), (0, 0, 0, 2.0), (0, 0, 0, -1), (0, 0, 0, 300), (0, 0, 0, -0.5)]
 COLORS_OK = ['#123', '#1234', '#123456', '#12345678', '123456', 'abc', 'red', 'RED', 'Red', 'black', '#FFF', (1, 2, 3), (1, 2, 3, 4), (0, 0, 0, 0.5),
              (255, 255, 255), (0, 0, 0, 255), (0, 0, 0, 1.0)]
@@ -636,10 +639,13 @@ def r7(fx):
             yield o
 
 
-@rule('C14', 'R10', 15, 'make_sequence refusals (Micro version, symbol_count outside 1-16, missing arguments, too short content)')
+@rule('C14', 'R10', 19, 'make_sequence refusals (Micro version, symbol_count outside 1-16, missing arguments, too short content); content of every documented type is split, not refused with TypeError')
 def r10(fx):
     for o in p08.r2(fx):
         yield o
+    for o in p08.r1(fx):
+        if 'content)' in o.key:
+            yield o
 
 
 @rule('C14', 'R11', 20, 'CLI argument parsing: Micro version names in any letter case relax the default micro=False; numeric versions / explicit --micro are kept')
